@@ -37,6 +37,8 @@ form: a failed roll-forward left the state root on the side branch (9256a8e2; cl
 numbered 0 whose parent is the best block was connected as best block (dd88a2dd; clauses (1),(2)).
 -/
 import Aergo.Lemmas.Chain
+import Aergo.Lemmas.ChainLaw
+import Aergo.Lemmas.ChainTable
 
 namespace Aergo.Props.C05
 open Aergo.Chain
@@ -45,36 +47,8 @@ variable {exec : Nat → Block → Option Nat} {txsOf : Nat → List Nat} {U : N
 
 /-- **The invariant holds on a fresh node** (genesis block only, any pool capacities). -/
 theorem inv_init (hg0 : g.no = 0) (hgU : U g.id = some g) (oc bc : Nat) :
-    Inv exec txsOf U g (genesis g oc bc) := by
-  have hbl : ∀ i b, (genesis g oc bc).blocks i = some b → i = g.id ∧ b = g := by
-    intro i b hb
-    simp only [genesis, upd_apply] at hb
-    split at hb
-    · next hi => injection hb with hb; exact ⟨hi, hb.symm⟩
-    · cases hb
-  have hby : ∀ k i, (genesis g oc bc).byNo k = some i → k = 0 := by
-    intro k i hk
-    simp only [genesis, upd_apply] at hk
-    split at hk
-    · assumption
-    · cases hk
-  have hgm : onMain (genesis g oc bc) g := ⟨by simp [genesis, hg0], by simp [genesis]⟩
-  have only : ∀ x, onMain (genesis g oc bc) x → x = g := fun x hx => (hbl _ _ hx.2).2
-  refine ⟨?_, ?_, hgm, hg0, ?_, ?_, ⟨hgm, hg0⟩, ?_, ?_, ?_, ?_, ?_, rfl, rfl⟩
-  · intro i b hb; obtain ⟨rfl, rfl⟩ := hbl i b hb; exact hgU
-  · intro e he; cases he
-  · intro k hk
-    have : k = 0 := by simpa [genesis] using hk
-    subst this
-    exact ⟨g, hgm, hg0, fun h => absurd h (Nat.lt_irrefl 0)⟩
-  · intro k hk
-    simp only [genesis] at hk ⊢
-    exact upd_other _ _ (by omega)
-  · intro b p hb hp hn; rw [only b hb, only p hp] at hn; omega
-  · intro b b' _ hb' _ hpos; rw [only b' hb', hg0] at hpos; omega
-  · intro b hb hpos; rw [only b hb, hg0] at hpos; omega
-  · intro t bid i ht; simp [genesis] at ht
-  · intro b hb hpos; rw [only b hb, hg0] at hpos; omega
+    Inv exec txsOf U g (genesis g oc bc) :=
+  Inv.init hg0 hgU oc bc
 
 /-- **Every arrival preserves the invariant** — a valid child of the best block, an invalid one (execution fails,
 wrong claimed root, refused by the consensus, wrong number), a duplicate, a block whose parent is unknown (parked,
@@ -84,23 +58,60 @@ theorem inv_addBlock (hE : ExecLaw exec txsOf) (hU : UKeyed U) (N : Node) (b : B
     (h : Inv exec txsOf U g N) (hb : U b.id = some b) : Inv exec txsOf U g (addBlock exec N b).2 :=
   Inv.addBlock hE hU h hb
 
+/-- **Every block of the node's own block factory preserves the invariant** (the own-block path of
+`ChainService.addBlock`, `usedBState ≠ nil`: connected with its block record, refused as stale when its parent is no
+longer the best block, refused by the consensus or because its header does not match the produced state, duplicate). -/
+theorem inv_addOwn (hE : ExecLaw exec txsOf) (hU : UKeyed U) (N : Node) (b : Block)
+    (h : Inv exec txsOf U g N) (hb : U b.id = some b) : Inv exec txsOf U g (addOwn exec N b).2 :=
+  Inv.addOwn hE hU h hb
+
 /-- The invariant does not depend on what the consensus reports as last irreversible height. -/
 theorem inv_setLib (N : Node) (l : Nat) (h : Inv exec txsOf U g N) : Inv exec txsOf U g { N with lib := l } :=
   Inv.same h rfl rfl rfl rfl rfl rfl rfl rfl rfl
 
-/-- **After any history of arrivals** (any order, any repetitions, any mix of the cases above) the invariant holds. -/
+/-- One arrival of any kind — a block from the network, a block of the node's own block factory, a move of the last
+irreversible height — preserves the invariant. -/
+theorem inv_arrive (hE : ExecLaw exec txsOf) (hU : UKeyed U) (N : Node) (a : Arrival)
+    (h : Inv exec txsOf U g N) (ha : ∀ b, a.block? = some b → U b.id = some b) : Inv exec txsOf U g (arrive exec N a) := by
+  cases a with
+  | net b => exact inv_addBlock hE hU N b h (ha b rfl)
+  | own b => exact inv_addOwn hE hU N b h (ha b rfl)
+  | lib n => exact inv_setLib N n h
+
+/-- **After any history of arrivals** (blocks from the network and blocks the node produced itself, in any order, with
+any repetitions, any mix of the cases above, the last irreversible height moving in between) the invariant holds. -/
 theorem inv_history (hE : ExecLaw exec txsOf) (hU : UKeyed U) (hg0 : g.no = 0) (hgU : U g.id = some g) (oc bc : Nat)
-    (bs : List Block) (hbs : ∀ b ∈ bs, U b.id = some b) :
-    Inv exec txsOf U g (bs.foldl (fun N b => (addBlock exec N b).2) (genesis g oc bc)) := by
-  have key : ∀ (bs : List Block) (N : Node), Inv exec txsOf U g N → (∀ b ∈ bs, U b.id = some b) →
-      Inv exec txsOf U g (bs.foldl (fun N b => (addBlock exec N b).2) N) := by
-    intro bs
-    induction bs with
+    (hist : List Arrival) (hbs : ∀ a ∈ hist, ∀ b, a.block? = some b → U b.id = some b) :
+    Inv exec txsOf U g (runHistory exec g oc bc hist) := by
+  have key : ∀ (hist : List Arrival) (N : Node), Inv exec txsOf U g N →
+      (∀ a ∈ hist, ∀ b, a.block? = some b → U b.id = some b) → Inv exec txsOf U g (hist.foldl (arrive exec) N) := by
+    intro hist
+    induction hist with
     | nil => intro N h _; exact h
-    | cons b bs ih =>
+    | cons a hist ih =>
       intro N h hb
-      exact ih _ (inv_addBlock hE hU N b h (hb b (by simp))) (fun x hx => hb x (by simp [hx]))
-  exact key bs _ (inv_init hg0 hgU oc bc) hbs
+      exact ih _ (inv_arrive hE hU N a h (hb a (by simp))) (fun x hx => hb x (by simp [hx]))
+  exact key hist _ (inv_init hg0 hgU oc bc) hbs
+
+/-- **The hypotheses are decided on every run.** For the blocks of a concrete session (`tbl` = genesis and every block
+that arrived, each carrying the row of the execution table the harness computed with the real transaction executor) the
+model driver evaluates `idsKeyed tbl` (one content per identifier) and `lawOk tbl` (the three `ExecLaw` conditions for the
+least ghost function of the table) on the op `law`, and the harness decides the same independently. When both hold, the
+two hypotheses of `inv_history` hold for `U := tableU tbl` and for the table restricted to the run's blocks (`execOn tbl`),
+and the run the driver performs with the unrestricted table `tableExec` is that very run (`runHistory_table`: a run
+depends on the execution function only through the blocks that arrived), so the invariant holds after the driver's run
+of that history. (Sessions of the harness families `lead5/*` answer `ids-forged`: there the theorems do not apply,
+`forged_id_breaks_index`.) -/
+theorem inv_of_checked_run (hg0 : g.no = 0) (oc bc : Nat) (hist : List Arrival)
+    (hk : idsKeyed (g :: hist.filterMap Arrival.block?) = true) (hl : lawOk (g :: hist.filterMap Arrival.block?) = true) :
+    Inv (execOn (g :: hist.filterMap Arrival.block?)) (look (lawGhost (g :: hist.filterMap Arrival.block?)))
+      (tableU (g :: hist.filterMap Arrival.block?)) g
+      (runHistory tableExec g oc bc hist) := by
+  rw [runHistory_table]
+  have hU := idsKeyed_sound _ hk
+  refine inv_history (lawOk_sound _ hl) (tableU_keyed _) hg0 (hU g (by simp)) oc bc hist ?_
+  intro a ha b hb
+  exact hU b (List.mem_cons_of_mem _ (List.mem_filterMap.mpr ⟨a, ha, hb⟩))
 
 /-! ## The clauses, as the query surface shows them -/
 
@@ -170,6 +181,34 @@ theorem abandoned_not_confirmed (hU : UKeyed U) (N : Node) (h : Inv exec txsOf U
 theorem receipts_exist (N : Node) (h : Inv exec txsOf U g N) (b : Block) (hb : onMain N b) (hpos : 0 < b.no)
     (hne : b.txs ≠ []) : N.rcpt b.id b.no = true := h.rcpt b hb hpos hne
 
+/-- **(3)/(4)** The query "receipts of the block with this hash" answers only for a main-chain block: the receipts a
+block of a side branch left on disk when it was executed in a roll-forward that then failed are never served. -/
+theorem receipts_query_sound (hU : UKeyed U) (N : Node) (h : Inv exec txsOf U g N) (id : Nat)
+    (hq : rcptByHash N id = true) : ∃ b, onMain N b ∧ b.id = id ∧ N.rcpt b.id b.no = true := by
+  unfold rcptByHash at hq
+  split at hq
+  · cases hq
+  · next b hb =>
+    have hid := Inv.keyed hU h hb
+    simp only [Bool.and_eq_true, beq_iff_eq] at hq
+    exact ⟨b, ⟨hq.1, by rw [hid]; exact hb⟩, hid, hq.2⟩
+
+/-- **(4)** Both receipt queries answer for every main-chain block that has transactions: by hash and by number. -/
+theorem receipts_queries_complete (N : Node) (h : Inv exec txsOf U g N) (b : Block) (hb : onMain N b) (hpos : 0 < b.no)
+    (hne : b.txs ≠ []) : rcptByHash N b.id = true ∧ rcptByNo N b.no = true := by
+  have hr := h.rcpt b hb hpos hne
+  constructor
+  · unfold rcptByHash; rw [hb.2]; simp [hb.1, hr]
+  · unfold rcptByNo blockByNo; rw [hb.1]; simp [hb.2, hr]
+
+/-- **(1)** The persisted latest pointer (what a restart takes for the best height) is the cached best height, and the
+height index has the best block there. -/
+theorem latest_key_persisted (N : Node) (h : Inv exec txsOf U g N) :
+    N.latestKey = N.best.no ∧ blockByNo N N.latestKey = some N.best := by
+  have bm : blockByNo N N.best.no = some N.best := by
+    unfold blockByNo; rw [h.best_main.1]; exact h.best_main.2
+  rw [h.lkey, ← h.best_no]; exact ⟨rfl, bm⟩
+
 /-- **(5)+(6)** The state root is the best block's state root; no reorganisation marker is left behind. -/
 theorem root_is_best (N : Node) (h : Inv exec txsOf U g N) : N.sdbRoot = N.best.claimed ∧ N.marker = none :=
   ⟨h.root, h.marker⟩
@@ -198,6 +237,22 @@ example :
     ((List.range 5).map N.byNo) = [some 1, some 4, some 5, some 6, none] ∧
     (getTx N 9, getTx N 7, getTx N 8) = (.confirmed 4 0, .confirmed 5 0, .notFound) ∧
     (N.rcpt 4 1, N.rcpt 5 2, N.rcpt 2 1, N.rcpt 3 2) = (true, true, false, false) := by decide
+
+/-- Test (sample values): the node produces `A1`, `A2` itself, is reorganised away to `B1 B2 B3` from the network, and a
+late own block `A3` on the abandoned tip is refused as stale without any effect. -/
+def A3 : Block := { id := 8, parent := 3, no := 3, txs := [], claimed := 102, pre := 102, res := some 102 }
+example :
+    let N := runHistory tableExec G 100 128 [.own A1, .own A2, .net B1, .net B2, .net B3, .own A3]
+    (N.best.id, N.latest, N.latestKey, N.sdbRoot) = (6, 3, 3, 112) ∧ (N.blocks 8).isNone ∧ N.bad = [] ∧
+    (getTx N 8) = .notFound ∧ (rcptByHash N 2, rcptByHash N 4) = (false, true) := by decide
+
+/-- Test (sample values): the hypotheses check accepts the table of the sample blocks and refuses a table in which a
+transaction executes a second time on the way (`A2'` replays 7) or two contents share an identifier (`F` below). -/
+def A2' : Block := { id := 13, parent := 2, no := 2, txs := [7], claimed := 103, pre := 101, res := some 103 }
+example : lawOk [G, A1, A2, B1, B2, B3] = true ∧ idsKeyed [G, A1, A2, B1, B2, B3] = true ∧
+    lawOk [G, A1, A2'] = false ∧
+    idsKeyed [G, A1, { id := 2, parent := 9, no := 2, txs := [], claimed := 100, pre := 100, res := some 100 }] = false := by
+  decide
 
 /-- An execution that satisfies `ExecLaw` and is not trivial (test of satisfiability): transaction hashes are consumed in
 order — the state root `r` has executed the hashes `0 … r-1`, a block executes iff it is empty or carries exactly the
